@@ -329,6 +329,14 @@ pub fn c06(ctx: &Ctx) -> (CheckMeta, Outcome) {
             v.property = "C06".into();
         }
         out.merge(o3);
+        // the dispatch engine of C10 (includes the real FactoryFuncCodeReader over a memory factory):
+        // its length and consumed-bits findings are C06 findings too
+        let mut o4 = crate::props::dispatch::c10(ctx).1;
+        o4.violations.retain(|v| v.symptom.contains("position") || v.symptom == "length");
+        for v in o4.violations.iter_mut() {
+            v.property = "C06".into();
+        }
+        out.merge(o4);
     }
     // bits consumed by a read whose codeword ends with the last bit of a strict stream
     out.merge(crate::props::readers::tail_exact("C06", ctx));
